@@ -107,6 +107,7 @@ pub fn run_batch(
     // PCT-like: fixed random priorities with a few priority change points
     let mut prio: Vec<u64> = (0..n).map(|_| rng.next() >> 8).collect();
     let change_at: Vec<usize> = (0..3).map(|_| rng.below(400) as usize).collect();
+    let trace = std::env::var("QVH_TRACE").is_ok();
     let mut step = step0;
     let budget = step0 + 200_000;
     let mut deadlock = false;
@@ -162,6 +163,9 @@ pub fn run_batch(
             for f in files {
                 f.set_op(i);
             }
+            if trace {
+                eprintln!("step {} poll task {} ({})", step, i, recs[i].op.text());
+            }
             let waker = Waker::from(flags[i].clone());
             let mut cx = Context::from_waker(&waker);
             let fut = futs[i].as_mut().unwrap();
@@ -184,6 +188,11 @@ pub fn run_batch(
             }
         } else {
             let (fi, id) = pend[choice - ready.len()];
+            if trace {
+                let st = files[fi].0.borrow();
+                let r = &st.log[id];
+                eprintln!("step {} complete file={} req={} {} off={} len={} (task {})", step, fi, id, r.kind.ch(), r.off, r.len, r.op);
+            }
             files[fi].complete(id);
         }
         step += 1;
@@ -225,7 +234,9 @@ pub fn gen_conc_case(seed: u64, id: usize, kind: &str) -> (Case, Vec<Vec<(Op, Op
         let nt = rng.range(2, 6) as usize;
         // focus region: same cluster / neighbouring clusters / disjoint
         let focus = rng.below(vs / cs + 1) * cs;
-        let mode = rng.below(3);
+        let mode = rng.below(5);
+        // guest bytes covered by one L2 slice / one refblock slice worth of data clusters
+        let l2_slice_bytes = case.l2.map(|(b, _)| (1u64 << b) / 8).unwrap_or(512) * cs;
         let mut ops: Vec<(Op, Option<usize>)> = Vec::new();
         for t in 0..nt {
             k += 1;
@@ -233,6 +244,8 @@ pub fn gen_conc_case(seed: u64, id: usize, kind: &str) -> (Case, Vec<Vec<(Op, Op
             let base = match mode {
                 0 => focus,
                 1 => focus + rng.below(3) * cs,
+                // sibling slices of one L2 table (different cache entries, same metadata cluster)
+                3 | 4 => (focus + rng.below(8) * l2_slice_bytes) % (vs / cs * cs).max(cs),
                 _ => rng.below(vs / cs + 1) * cs,
             };
             let mut off = (base + rng.below(cs / bs) * bs).min(vs - bs);
